@@ -83,3 +83,83 @@ def build(m):
                        (COMPLETE % (X2, X2, X2, X2, X2), 'C15'),
                        (NL, ['C15', 'C01'])]},
                    **common))
+
+
+def build2(m):
+    """ListItem.__init__ (C13, C09, C12): the item keeps the line number, leader, indentation and
+    content offset it was read with, and its looseness is the parse buffer's."""
+    BT = 'mistletoe.block_token'
+    LI = TRef('ListItemObj')
+    m.classes['ListItemObj'] = {'line_number': TOpt(INT), 'leader': STR, 'indentation': INT, 'prepend': INT,
+                                'children': TList(TOK), 'loose': BOOL}
+    m.subclass_of['ListItemObj'] = 'Token'
+    m.methods[('ListItem', '__init__')] = BT + ':ListItem.__init__'
+    m.add(Contract(BT + ':ListItem.__init__',
+                   [('self', LI), ('parse_buffer', PB), ('indentation', INT), ('prepend', INT), ('leader', STR),
+                    ('line_number', TOpt(INT), NONE_VAL)],
+                   ensures=[('same(self.line_number, line_number)', 'C13'),
+                            ('self.leader == leader and self.indentation == indentation and self.prepend == prepend', ['C09', 'C10']),
+                            ('self.loose == parse_buffer.loose', ['C03', 'C12']),
+                            # C13: the children are the tokens made from the item's own parse buffer
+                            ('forall(lambda i: exists(lambda j: self.children[i].line_number == parse_buffer.items[j][2], '
+                             '0, len(parse_buffer.items)), 0, len(self.children))', 'C13')],
+                   modifies=['self.line_number', 'self.leader', 'self.indentation', 'self.prepend', 'self.children', 'self.loose',
+                             'G:INLINE_PHASE', 'N:Token.line_number', 'N:Token.children', 'F:Token.line_number'],
+                   allow_exc=['CustomTokenError'], prop=['C13', 'C09', 'C12', 'C03']))
+
+
+def build3(m):
+    """Leaf block constructors (C09: tokens retain their source spelling; C12: a code / HTML block has
+    exactly one RawText child holding its text; C08: the language tag is what the opening fence says)."""
+    BT = 'mistletoe.block_token'
+    ST = 'mistletoe.span_token'
+    RT = TRef('RawTextTok')
+    m.classes['RawTextTok'] = {'content': STR}
+    ns = m.namespaces.setdefault(ST, {})
+    ns['RawText'] = ('class', 'RawText')
+    m.methods[('RawText', '__init__')] = ST + ':RawText.__init__'
+    m.add(Contract(ST + ':RawText.__init__', [('self', RT), ('content', STR)],
+                   ensures=['self.content == content'], modifies=['self.content'], prop=['C12', 'C09']))
+    if 'esc_strip' not in m.ufuncs:
+        m.ufunc('esc_strip', [STR], STR)
+    ONE = TTuple([RT])
+    OPENINFO = TTuple([INT, STR, STR, STR])
+    CF = TRef('CodeFenceObj')
+    m.classes['CodeFenceObj'] = {'indentation': INT, 'delimiter': STR, 'info_string': STR, 'language': STR, 'children': ONE}
+    m.methods[('CodeFence', '__init__')] = BT + ':CodeFence.__init__'
+    m.add(Contract(BT + ':CodeFence.__init__', [('self', CF), ('match', TTuple([TList(STR), OPENINFO]))],
+                   ensures=[('self.indentation == match[1][0] and self.delimiter == match[1][1] and self.info_string == match[1][2]', 'C09'),
+                            ('self.language == esc_strip(match[1][3])', ['C09', 'C08', 'C12']),
+                            ("self.children[0].content == ''.join(match[0])", ['C12', 'C09'])],
+                   modifies=['self.indentation', 'self.delimiter', 'self.info_string', 'self.language', 'self.children',
+                             'N:RawTextTok.content'],
+                   prop=['C09', 'C12']))
+    BC = TRef('BlockCodeObj')
+    m.classes['BlockCodeObj'] = {'language': STR, 'children': ONE}
+    m.methods[('BlockCode', '__init__')] = BT + ':BlockCode.__init__'
+    m.add(Contract(BT + ':BlockCode.__init__', [('self', BC), ('lines', TList(STR))],
+                   ensures=[("self.language == ''", ['C12', 'C08']),
+                            ("self.children[0].content == ''.join(lines).strip('\\n') + '\\n'", ['C12', 'C09'])],
+                   modifies=['self.language', 'self.children', 'N:RawTextTok.content'], prop=['C09', 'C12']))
+    HB = TRef('HtmlBlockObj')
+    m.classes['HtmlBlockObj'] = {'children': ONE}
+    m.methods[('HtmlBlock', '__init__')] = BT + ':HtmlBlock.__init__'
+    m.add(Contract(BT + ':HtmlBlock.__init__', [('self', HB), ('lines', TList(STR))],
+                   ensures=[("self.children[0].content == ''.join(lines).rstrip('\\n')", ['C12', 'C09'])],
+                   modifies=['self.children', 'N:RawTextTok.content'], prop=['C09', 'C12']))
+    TB = TRef('ThematicBreakObj')
+    m.classes['ThematicBreakObj'] = {'line': STR}
+    m.methods[('ThematicBreak', '__init__')] = BT + ':ThematicBreak.__init__'
+    m.add(Contract(BT + ':ThematicBreak.__init__', [('self', TB), ('lines', TList(STR))],
+                   requires=['len(lines) >= 1'],
+                   ensures=[("self.line == lines[0].strip('\\n')", 'C09')],
+                   modifies=['self.line'], prop=['C09'],
+                   note='requires: ThematicBreak.read returns the one line it consumed'))
+    QT = TRef('QuoteObj')
+    m.classes['QuoteObj'] = {'children': TList(TOK)}
+    m.methods[('Quote', '__init__')] = BT + ':Quote.__init__'
+    m.add(Contract(BT + ':Quote.__init__', [('self', QT), ('parse_buffer', PB)],
+                   ensures=[('forall(lambda i: exists(lambda j: self.children[i].line_number == parse_buffer.items[j][2], '
+                             '0, len(parse_buffer.items)), 0, len(self.children))', 'C13')],
+                   modifies=['self.children', 'G:INLINE_PHASE', 'N:Token.line_number', 'N:Token.children', 'F:Token.line_number'],
+                   allow_exc=['CustomTokenError'], prop=['C13', 'C12']))
